@@ -38,20 +38,27 @@ example : (fxFract i32 16 (-2147483648)).isSome := fxFract_no_trap i32 16 _ (by 
 example : (fxFract i32 6 2147483647).isSome := fxFract_no_trap i32 6 _ (by decide) (by decide)
 example : (fxFract i16 14 (-32768)).isSome := fxFract_no_trap i16 14 _ (by decide) (by decide)
 
-/-- `abs` (`self.0.abs()`) traps exactly on the minimum value … -/
-theorem fxAbs_i32_isSome_iff (a : Int) (h : I32 a) : (fxAbs i32 a).isSome ↔ a ≠ -2147483648 := by
-  simp only [fxAbs, IntTy.abs, chk_isSome_iff, IntTy.inR, i32]; unfold I32 at h; split <;> omega
-theorem fxAbs_i16_isSome_iff (a : Int) (h : I16 a) : (fxAbs i16 a).isSome ↔ a ≠ -32768 := by
-  simp only [fxAbs, IntTy.abs, chk_isSome_iff, IntTy.inR, i16]; unfold I16 at h; split <;> omega
-/-- … and so does `Neg` (`-self.0`) of `Fixed` / `F26Dot6`. -/
-theorem fxNeg_isSome_iff (a : Int) (h : I32 a) : (fxNeg a).isSome ↔ a ≠ -2147483648 := by
-  simp only [fxNeg, IntTy.neg, chk_isSome_iff, IntTy.inR, i32]; unfold I32 at h; omega
+/-- `abs` and `Neg` (after fix 7d0f778: `wrapping_abs` / `wrapping_neg`) cannot trap. -/
+theorem fxAbs_no_trap (t : IntTy) (a : Int) : (fxAbs t a).isSome := rfl
+theorem fxNeg_no_trap (a : Int) : (fxNeg a).isSome := rfl
 
-/-- witnesses (replayed on the real code by the harness: `Fixed::MIN.abs()`, `-Fixed::MIN`,
-`F2Dot14::MIN.abs()` panic with "attempt to negate with overflow") -/
-theorem fxAbs_i32_traps_at : fxAbs i32 (-2147483648) = none := by decide
-theorem fxAbs_i16_traps_at : fxAbs i16 (-32768) = none := by decide
-theorem fxNeg_traps_at : fxNeg (-2147483648) = none := by decide
+/-- before the fix `abs` (`self.0.abs()`) trapped exactly on the minimum value … -/
+theorem fxAbsPreFix_i32_isSome_iff (a : Int) (h : I32 a) :
+    (fxAbsPreFix i32 a).isSome ↔ a ≠ -2147483648 := by
+  simp only [fxAbsPreFix, IntTy.abs, chk_isSome_iff, IntTy.inR, i32]; unfold I32 at h; split <;> omega
+theorem fxAbsPreFix_i16_isSome_iff (a : Int) (h : I16 a) :
+    (fxAbsPreFix i16 a).isSome ↔ a ≠ -32768 := by
+  simp only [fxAbsPreFix, IntTy.abs, chk_isSome_iff, IntTy.inR, i16]; unfold I16 at h; split <;> omega
+/-- … and so did `Neg` (`-self.0`) of `Fixed` / `F26Dot6` (reached from TrueType bytecode:
+`SMD[] 0x80000000` then `MDRP[]` with the minimum-distance flag evaluates `-min_distance`). -/
+theorem fxNegPreFix_isSome_iff (a : Int) (h : I32 a) :
+    (fxNegPreFix a).isSome ↔ a ≠ -2147483648 := by
+  simp only [fxNegPreFix, IntTy.neg, chk_isSome_iff, IntTy.inR, i32]; unfold I32 at h; omega
+theorem fxAbsPreFix_i32_traps_at : fxAbsPreFix i32 (-2147483648) = none := by decide
+theorem fxAbsPreFix_i16_traps_at : fxAbsPreFix i16 (-32768) = none := by decide
+theorem fxNegPreFix_traps_at : fxNegPreFix (-2147483648) = none := by decide
+example : fxNeg (-2147483648) = some (-2147483648) := by decide
+example : fxAbs i16 (-32768) = some (-32768) := by decide
 
 /-- `Mul`: the i64 product, `+ 0x8000`, `- (ab < 0)` and `>> 16` never trap for i32 operands. -/
 theorem fxMul_no_trap (a b : Int) (ha : I32 a) (hb : I32 b) : (fxMul a b).isSome := by
@@ -634,7 +641,7 @@ theorem tupleScalarGo_no_trap (inter : Option (List Int × List Int)) (coords : 
         obtain ⟨hst, hen⟩ := hinter (starts, ends) rfl
         have h1 := getD_I16 starts hst i
         have h2 := getD_I16 ends hen i
-        simp only [f2ToFixed_eq _ h1, f2ToFixed_eq _ h2, Option.bind_eq_bind, Option.bind_some]
+        simp only [f2ToFixed_eq _ h1, f2ToFixed_eq _ h2, Option.bind_some]
         split
         · rfl
         split
